@@ -162,6 +162,31 @@ def run(ctx):
         gv = unparse(regen[0].stmt.targets[0]) if isinstance(regen[0].stmt, ast.Assign) else None
         sc = [c for c in sync[0].calls() if call_name(c) == "send_sync_group_request"][0]
         ok = ok and gv is not None and sc.args and norm(sc.args[0]) == gv
+    # the need-partitions signal is raised exactly for topics that are absent from the map (a KeyError / `not in`), never
+    # for a topic whose list is present but empty: the reload cannot change that and the second raise is unhandled
+    rra_ = ctx.func("_group:_ConsumerProtocol._round_robin_assignment")
+    crr = ctx.cfg(rra_)
+    frr = ctx.facts(rra_)
+    sig = [n for n in crr.nodes if n.kind == "stmt" and isinstance(n.stmt, ast.Raise) and "_NeedTopicPartitions" in norm(n.stmt)]
+    kerr = [n for n in crr.nodes if n.kind == "except" and n.stmt.type is not None and norm(n.stmt.type) == "KeyError"]
+    oks = bool(sig)
+    for n in sig:
+        in_handler = any(n.id in crr.reach([h.id]) for h in kerr)
+        absent = any(pol and " not in " in t for t, pol in frr[n.id])
+        oks = oks and (in_handler or absent)
+    r.check(oks, "%s#signal-only-for-absent-topics" % rra_.qname, "the need-partitions signal is raised under another condition than `topic absent "
+            "from the partition map`", where(rra_, sig[0].stmt if sig else rra_.node),
+            "a subscribed topic that maps to an empty list: the leader raises again after the reload, nothing handles it, no SyncGroup is sent")
+    # the snapshot handed to the leader is the cached list itself, not a filtered view of it
+    ltp = ctx.func("client:KafkaClient._load_topic_partitions")
+    snaps = [x for x in ast.walk(ltp.node) if isinstance(x, ast.Assign) and isinstance(x.targets[0], ast.Subscript) and norm(x.targets[0].value) == "snapshot"]
+    oksn = bool(snaps)
+    for x in snaps:
+        v = x.value
+        inner = v.args[0] if isinstance(v, ast.Call) and call_name(v) in ("list", "sorted", "tuple") and len(v.args) == 1 else v
+        oksn = oksn and norm(inner) in ("self.topic_partitions[%s]" % norm(x.targets[0].slice), "partitions")
+    r.check(oksn, "%s#snapshot-unfiltered" % ltp.qname, "the partition snapshot given to the group leader is not the cached partition list of the topic",
+            where(ltp, snaps[0] if snaps else ltp.node), "a momentarily leaderless partition is left out and assigned to nobody for the whole generation")
     gens = [c for n in cj.nodes for c in n.calls() if call_name(c) == "generate_assignments"]
     fresh = True
     for c in gens:
